@@ -374,3 +374,21 @@ class F14ResourcelessGroupInTree(ReproBase):
         got = sorted(tuple(sorted(ar['mappings']['_B']))
                      for ar in json.loads(r.text)['allocation_requests'])
         self.assertEqual([(c2.uuid,)], got)
+
+
+class F15RepeatedLimitZeroFirst(ReproBase):
+    """C15: ?limit=0&limit=5 - the schema sees the last value; the first is
+    converted and refused, but the except clause of that refusal formatted
+    ``limit[0]`` after ``limit`` had been rebound to the int: TypeError, 500
+    (a regression of the F8 repair, found by R15.13)."""
+
+    def test_zero_first_limit_is_400(self):
+        cn1 = self._create_provider('cn1')
+        tb.add_inventory(cn1, orc.VCPU, 8)
+        try:
+            r = self.call(
+                'GET', '/allocation_candidates?resources=VCPU:1'
+                       '&limit=0&limit=5')
+        except TypeError as exc:
+            self.fail('escaped exception (500 via FaultWrapper): %r' % exc)
+        self.assertEqual(400, r.status_int)
